@@ -206,14 +206,22 @@ def draw_regex_for_whole(draw, hint: str):
     return {'pat': pat, 'ic': draw(_pct) < 15, 'groups': 0}
 
 
+_inline_flags = st.sampled_from(['(?m)', '(?m)', '(?s)', '(?s)', '(?i)', '(?ms)'])
+
+
 def draw_regex(draw, hint: str = '', full: bool = False):
     """hint: the text the regex will be applied to; full: it will be used with -full."""
     k = draw(_pct)
     if full and k < 45:
-        return draw_regex_for_whole(draw, hint)
-    if hint and k < 55:
-        return draw_regex_from_substring(draw, hint)
-    return draw_random_regex(draw, hint)
+        rx = draw_regex_for_whole(draw, hint)
+    elif hint and k < 55:
+        rx = draw_regex_from_substring(draw, hint)
+    else:
+        rx = draw_random_regex(draw, hint)
+    if draw(_pct) < 7:
+        # global inline flags ("Python syntax"): multi-line anchors, dot matching new-line, ignore case
+        rx = dict(rx, pat=draw(_inline_flags) + rx['pat'])
+    return rx
 
 
 @st.composite
